@@ -297,6 +297,12 @@ def behaviour(rng, flavour):
             elems = [rng.choice([rec(nm, rng), filtered(nm, rng)]), g, filtered(nm, rng)]
             if rng.random() < 0.5:
                 elems.append(rng.choice([rec(nm, rng), filtered(nm, rng)]))
+        elif rng.random() < 0.08:
+            # a single and_then tree with an absent half directly on the registry (outside the shape of finding F17)
+            none = {"e": "opt", "inner": None}
+            x = rng.choice([rec(nm, rng), filtered(nm, rng), filtered(nm, rng)])
+            a, b = rng.choice([(none, x), (x, none)])
+            elems = [{"e": "and_then", "a": a, "b": b}]
         elif rng.random() < 0.15:
             # hint mixtures: per-layer-filtered layers of different verbosity, some of them inside a Vec next to an absent
             # member (the Vec then answers the none-marker query), in every order
